@@ -282,6 +282,23 @@ func main() {
 		}
 		histories = append(histories, h)
 	}
+	// persistence: many failed attempts on one connection (counters, lock-outs), then protected requests in plaintext and
+	// under the keys of the last failed exchange
+	for _, k := range []int{100, r.Pick(3, 256)} {
+		for _, pair := range [][2]string{{"verify M1", "verify M3 L-bad-signature"}, {"verify M1", "verify M3 unknown-name"}, {"setup M1", "setup M3 wrong-proof"}, {"setup M1", "setup M3 A=0"}} {
+			var h []step
+			for i := 0; i < k; i++ {
+				h = append(h, step{Op: pair[0]}, step{Op: pair[1]})
+			}
+			h = append(h, step{Op: pair[0]}, step{Op: pair[1]}, step{Op: "GET /accessories"}, step{Op: "PUT value"}, step{Op: "POST /pairings add"})
+			if pair[0] == "verify M1" {
+				h = append(h, step{Op: "verify M1"}, step{Op: pair[1]}, step{Op: "encrypted GET /accessories"})
+			} else {
+				h = append(h, step{Op: "setup M5 zero-key"}, step{Op: "GET /accessories"})
+			}
+			histories = append(histories, h)
+		}
+	}
 	if r.Thorough() {
 		for _, x := range alph {
 			for _, y := range alph {
